@@ -1,5 +1,6 @@
 import Httpcache.Proofs.Validation
 import Httpcache.Proofs.Paths
+import Httpcache.Proofs.Csv
 /-
 C02 — Responses that require validation are never reused unvalidated.
 
@@ -110,6 +111,19 @@ theorem qualified_fields_stripped (s : CacheStatus) (f : Freshness) (now : Int) 
         Header.has_set_other _ _ _ _ (Ne.symm h1)]
     exact base
 
+
+/-- The qualified form given more than once (one field line or several): the directive map names the
+    fields of BOTH lists, so `qualified_fields_stripped` covers every one of them (the pinned parser kept
+    only the last list; see known_findings.json) -/
+theorem qualified_lists_accumulate (m : Directives) (prev v : Str) (hp : alookup sNoCache m = some prev)
+    (hq1 : (parseQuotedString prev).isEmpty = false) (hq2 : (parseQuotedString v).isEmpty = false) :
+    (directiveInsert m sNoCache v).respNoCache =
+      some (some (trimmedCSV (parseQuotedString prev ++ [','] ++ parseQuotedString v))) :=
+  two_qualified_lists m prev v hp hq1 hq2
+
+set_option maxRecDepth 8000 in
+example : (parseCC [(sCacheControl, str% "no-cache=\"A\""), (sCacheControl, str% "no-cache=\"B\"")]).respNoCache =
+    some (some [str% "A", str% "B"]) := by decide
 
 /-- Non-vacuity: a stored response with an unqualified no-cache, validated with a 304. -/
 def exGlue : Glue := ⟨fun s => if s = (str% "D") then some 100 else none⟩
